@@ -224,6 +224,33 @@ def split_cases(rng, n):
     return out
 
 
+SPLICE_LETS = ['("%( let x := 1; x %)", "%( let x := 2; x %)")', '7 let x := 1; (|y| ("%( let x := 2; x %)", "b") drop x)', '"%( let a := 5; a %)-%( 3 %)"',
+               '(1, 2) (|v| "%( let w := v; w w add %)")', '[("%( let q := 1; q %)", 2)]', '1 ?("%( let k := 2; k %)" == "2")', 'let z := 9; ("%( let x := z; x %)" z)',
+               '(|| "%( let x := 1; x %)") "%( let x := 2; x %)"', 'if ("%( let c := 1; c %)" == "1") then "%( let c := 2; c %)" else 0', '{"%( let b := 4; b %)"} apply']
+
+
+def job_splice_lets(seed):
+    """`let` inside a %( %) splice: where such a name is visible is not documented, so no verdict on WHAT these programs yield -- but
+    whatever it is, it is the same with and without the simplification pass (and in every layout)."""
+    d = common.get_driver()
+    rng = random.Random(seed)
+    out = {"splice_let_runs": 0, "bad": []}
+    for t in SPLICE_LETS:
+        try:
+            a = d.run(t, fuel=zcheck.FUEL, max=zcheck.MAXRES)
+            b = d.run(t, fuel=zcheck.FUEL, max=zcheck.MAXRES, nosimp=1)
+            out["splice_let_runs"] += 1
+            w = zcheck.same_outcome(a, b, ordered=True)
+            if w or (a["st"] == "reject") != (b["st"] == "reject"):
+                out["bad"].append(("simplify off:let-in-a-splice:%s" % (w or "compile verdict differs"), dict(a=t, with_simplify=dict(st=a["st"], msg=a.get("msg"), n=len(a.get("res", []))),
+                                                                                                         without=dict(st=b["st"], msg=b.get("msg"), n=len(b.get("res", []))))))
+        except common.DriverCrash as ex:
+            out["bad"].append(("crash:" + getattr(ex, "key", ex.kind), dict(a=t, report=ex.report[-3000:])))
+        except common.DriverTimeout as ex:
+            out["bad"].append(("hang", dict(a=t)))
+    return out
+
+
 def job_raw(seed):
     """Raw strings: r"..." leaves escape sequences intact (compared with the spelled-out normal literal)."""
     d = common.get_driver()
@@ -279,6 +306,7 @@ def run(chk):
     dfiles = [os.path.join(tdir, f) for f in (["typedef.o", "enum.o", "nontrivial-types.o"] if quick else ["typedef.o", "enum.o", "nontrivial-types.o", "bitcount.o", "char_16_32.o", "dwz-partial", "a1.out"])
               if os.path.exists(os.path.join(tdir, f))]
     zcheck.consume(chk, pool.map(job_dir_dwarf, dfiles), tot, ctx, samples, "C15 directives on DWARF values")
+    zcheck.consume(chk, pool.map(job_splice_lets, [chk.seed * 43]), tot, ctx, samples, "C15 lets in splices")
     zcheck.consume(chk, pool.map(job_raw, [chk.seed * 41 + i for i in range(4 if quick else 64)]), tot, ctx, samples, "C15 raw")
     pool.finish()
     chk.cov.update({
